@@ -281,7 +281,7 @@ def run(tier):
     for (a, b) in (pairs if tier == "thorough" else rnd.sample(pairs, 150)):
         add([a, b], "cli", rnd.choice(["none", "zod"]), runmask=[False, True])
     # length 3
-    n3 = 150 if tier == "quick" else 12000
+    n3 = 150 if tier == "quick" else 40000
     for _ in range(n3):
         seq = [rnd.choice(names) for _ in range(3)]
         add(seq, rnd.choice(["cli", "build"]), rnd.choice(["none", "zod"]), runmask=[rnd.random() < 0.7, rnd.random() < 0.7, True])
